@@ -1,8 +1,200 @@
 import DarkluaModel.Util.Sexp
-/-! Line-protocol handlers for property C11 (stub: nothing modelled yet). -/
+import DarkluaModel.C11.Model
+/-!
+Line-protocol handlers for property C11.
+
+  c11.batch (B <fsys> <cwd>) (TREE (f <path> <content>) (d <path>) …) <input> <output|-> <failfast>
+            (T (<path> <content> ok <bytes>) (<path> <content> err <code>) …) (PERM id | i j k …)
+      → `collect-error <kind> <path>` |
+        `ok (work (<src> <out>)…) (store (<path> f <bytes>)|(<path> d)|(<path> n)…)
+            (errors (<src> <kind> <path> <code>)…) (notdone <src>…) (tmiss <n>)`
+  c11.h (B …) (TREE …) <input> <output|->   → `h=<bool> dot=<bool> overlap=<bool> indep=<bool>`
+  c11.norm <path>                           → normalised path
+  c11.ext <path>                            → `some <hex>` | `none`
+  c11.reserved <assert|none> <bits>         → `(<name> <n>)…` the drained map after the calls
+All byte strings are `x`-prefixed hex; paths are raw byte strings parsed by `parsePath`.
+-/
 namespace DarkluaModel.C11
 
-def handle (op : String) (_args : List String) : String :=
-  "unknown-op " ++ op
+open DarkluaModel
+
+private def pathOf? (s : Sexp) : Option Path :=
+  s.atom?.bind hexToBytes? |>.map parsePath
+
+private def bytesOf? (s : Sexp) : Option Bytes := s.atom?.bind hexToBytes?
+
+private def pathHex (p : Path) : String := bytesToHex (renderPath p)
+
+private def backendOf? : Sexp → Option Backend
+  | .list [.atom "B", f, c] => do
+    let fsys ← f.bool?
+    let cwd ← pathOf? c
+    pure ⟨fsys, cwd⟩
+  | _ => none
+
+private def entryOf? (b : Backend) : Sexp → Option (Path × Entry)
+  | .list [.atom "f", p, c] => do
+    let p ← pathOf? p
+    let c ← bytesOf? c
+    pure (resolve b p, .file c)
+  | .list [.atom "d", p] => do
+    let p ← pathOf? p
+    pure (resolve b p, .dir)
+  | _ => none
+
+private def treeOf? (b : Backend) : Sexp → Option Tree
+  | .list (.atom "TREE" :: es) => es.mapM (entryOf? b)
+  | _ => none
+
+private def outputOf? : Sexp → Option (Option Path)
+  | .atom "-" => some none
+  | s => (pathOf? s).map some
+
+structure TEntry where
+  path : Path
+  content : Bytes
+  result : Except Nat Bytes
+
+private def tEntryOf? : Sexp → Option TEntry
+  | .list [p, c, .atom "ok", r] => do
+    let p ← pathOf? p
+    let c ← bytesOf? c
+    let r ← bytesOf? r
+    pure ⟨normalize p, c, .ok r⟩
+  | .list [p, c, .atom "err", n] => do
+    let p ← pathOf? p
+    let c ← bytesOf? c
+    let n ← n.nat?
+    pure ⟨normalize p, c, .error n⟩
+  | _ => none
+
+private def tableOf? : Sexp → Option (List TEntry)
+  | .list (.atom "T" :: es) => es.mapM tEntryOf?
+  | _ => none
+
+/-- code reserved for "the harness did not measure this (path, content)" -/
+def tMissCode : Nat := 999999
+
+def tableT (tbl : List TEntry) : Path → Bytes → Except Nat Bytes := fun p c =>
+  match tbl.find? (fun e => e.path = p && e.content = c) with
+  | some e => e.result
+  | none => .error tMissCode
+
+private def permOf? (n : Nat) : Sexp → Option (List Nat)
+  | .list [.atom "PERM", .atom "id"] => some (List.range n)
+  | .list (.atom "PERM" :: is) => do
+    let is ← is.mapM Sexp.nat?
+    if is.length = n && (List.range n).all (fun i => is.contains i) then pure is else none
+  | _ => none
+
+private def errSexp (src : Path) : Err → String
+  | .read p => s!"({pathHex src} read {pathHex p} 0)"
+  | .transform p c => s!"({pathHex src} transform {pathHex p} {c})"
+  | .write p => s!"({pathHex src} write {pathHex p} 0)"
+
+private def entrySexp (p : Path) : Option Entry → String
+  | some (.file c) => s!"({pathHex p} f {bytesToHex c})"
+  | some .dir => s!"({pathHex p} d)"
+  | none => s!"({pathHex p} n)"
+
+private def collectErrorText : CollectError → String
+  | .noFileName => "collect-error no-file-name x"
+  | .stripPrefix s => "collect-error strip-prefix " ++ pathHex s
+
+private def dedupPaths (ps : List Path) : List Path :=
+  ps.foldl (fun acc p => if acc.contains p then acc else acc ++ [p]) []
+
+private def prefixes (p : Path) : List Path :=
+  (List.range p.length).map (fun n => p.take (n + 1))
+
+def handleBatch (req : List Sexp) : String :=
+  match req with
+  | [bS, tS, inS, outS, ffS, tblS, permS] =>
+    match backendOf? bS with
+    | none => "bad-backend"
+    | some b =>
+    match treeOf? b tS, pathOf? inS, outputOf? outS, ffS.bool?, tableOf? tblS with
+    | some t, some input, some output, some ff, some tbl =>
+      match collectWork b t input output with
+      | .error e => collectErrorText e
+      | .ok wl =>
+        match permOf? wl.length permS with
+        | none => "bad-perm"
+        | some perm =>
+          let σ := perm.filterMap (fun i => wl[i]?)
+          let T := tableT tbl
+          let st := processAll b T ff t.toStore σ
+          let outs := wl.map (fun it => resolve b it.output)
+          let cands := dedupPaths (t.map (·.1) ++ outs.flatMap prefixes)
+          let storeS := cands.map (fun p => entrySexp p (st.store p))
+          let errs := collectErrors st wl
+          let tmiss := errs.filter (fun pe => match pe.2 with | .transform _ c => c = tMissCode | _ => false)
+          let notdone := wl.filter (fun it => (st.status it.source).isNone)
+          "ok (work " ++ " ".intercalate (wl.map fun it => s!"({pathHex it.source} {pathHex it.output})") ++ ")"
+            ++ " (store " ++ " ".intercalate storeS ++ ")"
+            ++ " (errors " ++ " ".intercalate (errs.map fun pe => errSexp pe.1 pe.2) ++ ")"
+            ++ " (notdone " ++ " ".intercalate (notdone.map fun it => pathHex it.source) ++ ")"
+            ++ s!" (tmiss {tmiss.length})"
+    | _, _, _, _, _ => "bad-args"
+  | _ => "bad-arity"
+
+def handleH (req : List Sexp) : String :=
+  match req with
+  | [bS, tS, inS, outS] =>
+    match backendOf? bS with
+    | none => "bad-backend"
+    | some b =>
+    match treeOf? b tS, pathOf? inS, outputOf? outS with
+    | some t, some input, some output =>
+      let indep := match collectWork b t input output with
+        | .ok wl => pairwiseIndep b wl
+        | .error _ => false
+      s!"h={h11 b t input output} dot={classDot input} overlap={classOverlap b t input output} indep={indep}"
+    | _, _, _ => "bad-args"
+  | _ => "bad-arity"
+
+private def bitsOf? (s : String) : Option (List Bool) :=
+  s.toList.mapM fun c => if c = '1' then some true else if c = '0' then some false else none
+
+def handleReserved (kind bits : String) : String :=
+  let reserve? : Option (List Bytes) :=
+    if kind = "assert" then some assertReserve else if kind = "none" then some [] else none
+  match reserve?, bitsOf? bits with
+  | some reserve, some bs =>
+    let calls : List (Bytes → Bool) := bs.map fun u => fun _ => u
+    let r := reservedAfter reserve calls
+    "(" ++ " ".intercalate (r.1.map fun kv => s!"({bytesToHex kv.1} {kv.2})") ++ ")"
+  | _, _ => "bad-args"
+
+def handle (op : String) (args : List String) : String :=
+  match op with
+  | "batch" =>
+    match Sexp.parse ("(" ++ " ".intercalate args ++ ")") with
+    | some (.list req) => handleBatch req
+    | _ => "bad-sexp"
+  | "h" =>
+    match Sexp.parse ("(" ++ " ".intercalate args ++ ")") with
+    | some (.list req) => handleH req
+    | _ => "bad-sexp"
+  | "norm" =>
+    match args with
+    | [p] => match hexToBytes? p with
+      | some bs => pathHex (normalize (parsePath bs))
+      | none => "bad-args"
+    | _ => "bad-arity"
+  | "ext" =>
+    match args with
+    | [p] => match hexToBytes? p with
+      | some bs => match extension (parsePath bs) with
+        | some e => "some " ++ bytesToHex e
+        | none => "none"
+      | none => "bad-args"
+    | _ => "bad-arity"
+  | "reserved" =>
+    match args with
+    | [k, bits] => handleReserved k bits
+    | [k] => handleReserved k ""
+    | _ => "bad-arity"
+  | _ => "unknown-op " ++ op
 
 end DarkluaModel.C11
